@@ -1,0 +1,36 @@
+//go:build verif
+
+// Contracts for the govc verifier (/verif). This file contains comments only; it is compiled
+// only under the build tag "verif" and contributes no declarations.
+package db
+
+// Ghost key-value store: the abstract content of every db.Database object (C05, C17, C19).
+// kv[d][k] is the value stored under key k in database d, kvhas[d][k] whether k is present. Keys and
+// values are the abstract contents (bytes(..)) of the byte slices passed in. These contracts are the
+// trusted model of LevelDB behind the interface: writes succeed and are visible to later reads.
+//@ ghost kv (Array Int (Array Bytes Bytes))
+//@ ghost kvhas (Array Int (Array Bytes Bool))
+
+//@ func Database.Put
+//@   option trusted interface
+//@   ensures result == nil
+//@   ensures ghost(kv) == @store(old(ghost(kv)), ref(this), @store(@select(old(ghost(kv)), ref(this)), bytes(key), bytes(value)))
+//@   ensures ghost(kvhas) == @store(old(ghost(kvhas)), ref(this), @store(@select(old(ghost(kvhas)), ref(this)), bytes(key), true))
+//@   modifies ghost(kv), ghost(kvhas)
+
+//@ func Database.Delete
+//@   option trusted interface
+//@   ensures result == nil
+//@   ensures ghost(kvhas) == @store(old(ghost(kvhas)), ref(this), @store(@select(old(ghost(kvhas)), ref(this)), bytes(key), false))
+//@   modifies ghost(kvhas)
+
+//@ func Database.Get
+//@   option trusted interface
+//@   ensures  @select(@select(ghost(kvhas), ref(this)), bytes(key)) ==> result0 != nil && result1 == nil && bytes(result0) == @select(@select(ghost(kv), ref(this)), bytes(key)) && fresh(result0)
+//@   ensures !@select(@select(ghost(kvhas), ref(this)), bytes(key)) ==> result0 == nil
+//@   modifies nothing
+
+//@ func Database.Has
+//@   option trusted interface
+//@   ensures result0 == @select(@select(ghost(kvhas), ref(this)), bytes(key)) && result1 == nil
+//@   modifies nothing
